@@ -11,13 +11,17 @@ Definition ex_eqb (a b : ex_outcome) : bool :=
 
 (** one extractor run: compiled type, what the framework's own extractor said, what the deserr
     extractor did, float-text oracle *)
-Record hcase := mkHC { hc_ty : dres ty; hc_fw : fw_outcome; hc_ex : ex_outcome; hc_ftext : list (N * string) }.
+Record hcase := mkHC { hc_ty : dres ty; hc_fw : fw_outcome; hc_ex : ex_outcome; hc_ftext : list (N * string);
+                       hc_custom : bool (* run with the harness's user error type: 422, "custom: " ++ message *) }.
+
+Definition custom_resp (m : string) : N * string := (422%N, ("custom: " ++ m)%string).
 
 (** the model's prediction equals the extractor's outcome *)
 Definition corr_c20 (h : hcase) : bool :=
   match hc_ty h with
   | Accept t =>
-    match extract (assoc_text (hc_ftext h)) (assoc_text []) t (hc_fw h) with
+    match (if hc_custom h then extract_with (assoc_text (hc_ftext h)) (assoc_text []) custom_resp t (hc_fw h)
+           else extract (assoc_text (hc_ftext h)) (assoc_text []) t (hc_fw h)) with
     | Some e => ex_eqb e (hc_ex h)
     | None => false
     end
@@ -30,6 +34,6 @@ Definition mon_c20 (h : hcase) : bool :=
   match hc_fw h, hc_ex h with
   | FwRej s b, Rejected s' b' => N.eqb s s' && String.eqb b b'
   | FwRej _ _, Extracted _ => false
-  | FwDoc _, Rejected s _ => N.eqb s 400
+  | FwDoc _, Rejected s _ => N.eqb s (if hc_custom h then 422 else 400)
   | FwDoc _, Extracted _ => true
   end.
